@@ -5,6 +5,7 @@ import (
 	"encoding/binary"
 	"fmt"
 	"testing"
+	"time"
 
 	"verif/internal/ev"
 	"verif/internal/sstcp"
@@ -22,6 +23,19 @@ var recAfter = ev.New("C02", "read-after-rejected-response",
 // also hold for an application that keeps reading after the first failed Read. The crafted second-session
 // response makes the bytes that follow the rejected header look like a well-formed length chunk.
 func TestReadAfterRejectedResponse(t *testing.T) {
+	done := make(chan struct{})
+	go func() {
+		defer close(done)
+		readAfterRejectedResponse(t)
+	}()
+	select {
+	case <-done:
+	case <-time.After(60 * time.Second): // 96 tiny sessions normally take a fraction of a second
+		t.Fatalf("SIG=C02/presentation-did-not-return the directed sessions did not finish within 60s (real time)")
+	}
+}
+
+func readAfterRejectedResponse(t *testing.T) {
 	for _, keyLen := range []int{16, 32} {
 		for _, pfx := range []int{sstcp.PrefixNone, sstcp.PrefixShort} {
 			for _, seg := range []bool{true, false} {
